@@ -11,7 +11,7 @@ CLAIM = {
          "declared frame is never left stuck in an open connection. The step budget counts dispatches and looks at the receive buffer, so a read loop "
          "that spins without consuming is reported as non-termination. A further switch-side case buffers one maximal message (65535 bytes, six types, "
          "symbolic xid, declared length 0xffe0..0xffff)."
-         " Also: a later TCP segment on a closed / served switch connection, shaped PACKET_OUT / FLOW_MOD inputs with action-list stubs, and a handshake-shaped input with a symbolic barrier xid on the controller side (no closed socket may stay in the select set).",
+         " Also: a later TCP segment on a closed / served switch connection, shaped PACKET_OUT / FLOW_MOD inputs with action-list stubs, and a handshake-shaped input with a symbolic barrier xid on the controller side (no closed socket may stay in the select set). On the switch side 'closed' means the socket was shut down or closed after the loop could flush, not merely marked.",
  'note': "Trusted: CPython, z3, symx proxies/shims (selftest), scripted sockets and select results (props/env.py). Message handlers on the "
          "controller side are recording stubs (handler semantics belong to C09/C17). Bounded by the stated buffer lengths.",
 }
